@@ -148,18 +148,13 @@ let () =
             | "svc" -> check t (Some (str_model_new service_name_new b)) (Some (str_spec_new service_name_rules 255 b))
             | "node" -> check t (Some (str_model_new node_name_new b)) (Some (str_spec_new node_name_rules 128 b))
             | _ -> let ty = ty_of t in
-              let tag () = if err_kind_class (cap_of ty) [] (OpPushBytes b) then "err-kind" else "unclassified" in
-              check ~tag t (Some (new_s (sem_new (sty_of ty) b))) (Some (new_s (spec_new ty b))))
+              check t (Some (new_s (sem_new (sty_of ty) b))) (Some (new_s (spec_new ty b))))
          | CMut (fresh, t, ty, cur) ->
            bump opcount (t ^ "." ^ name);
            let o = parse_op name args in
            let m = apply_s !cur (sem_apply (sty_of ty) !cur o) in
            let s = apply_s !cur (spec_apply ty !cur o) in
-           let tag () =
-             if err_kind_class (cap_of ty) !cur o then "err-kind"
-             else if full_zero_class (cap_of ty) !cur o then "full-zero-panic"
-             else if log_buffer_class (rules_of ty) !cur o then "log-buffer-panic" else "unclassified" in
-           check ~tag t (Some m) (Some s);
+           check t (Some m) (Some s);
            let (r, after) = split_slash impl in
            bump extra (match r with "eC" | "eL" -> "mut_rejected" | "P" -> "mut_panicked" | _ -> "mut_accepted");
            let key = t ^ ":" ^ hex !cur ^ ":" ^ name ^ String.concat " " args in
@@ -176,18 +171,18 @@ let () =
             | "addentry" ->
               let m = match path_add_path_entry (arg 0) (arg 1) with
                 | Val (s, Inl _) -> "u/" ^ hex s | Val (s, Inr e) -> err_s e ^ "/" ^ hex s | Panic -> "P/" ^ hex (arg 0) in
-              check ~tag:(fun () -> "addentry-partial") "path" (Some m) (Some (apply_s (arg 0) (spec_add_path_entry (arg 0) (arg 1))))
+              check "path" (Some m) (Some (apply_s (arg 0) (spec_add_path_entry (arg 0) (arg 1))))
             | "fname" -> check "fpath" (Some (hex (fp_file_name (arg 0)))) (Some (hex (last_component (arg 0))))
             | "fpath" -> check "fpath" (Some (hex (fp_path (arg 0)))) None
-            | "frompf" -> check ~tag:(fun () -> if impl = "P" then "frompf-debug-assert" else "unclassified") "fpath" (Some (new_s (fp_from_path_and_file true (arg 0) (arg 1)))) (Some (new_s (spec_from_path_and_file (arg 0) (arg 1))))
+            | "frompf" -> check "fpath" (Some (new_s (fp_from_path_and_file (arg 0) (arg 1)))) (Some (new_s (spec_from_path_and_file (arg 0) (arg 1))))
             | "pathfor" -> let c = cfg () in
               let r = function Val s -> hex s | Panic -> "P" in
               check "cfg" (Some (r (nc_path_for c (arg 3)))) (Some (r (spec_path_for c (arg 3))))
             | "extractf" -> let c = cfg () in
-              check ~tag:(fun () -> if impl = "P" then "extract-stray-panic" else "unclassified") "cfg" (Some (optstr_s (nc_extract_name_from_file c (arg 3)))) (Some (optstr_s (spec_extract_name_from_file c (arg 3))));
+              check "cfg" (Some (optstr_s (nc_extract_name_from_file c (arg 3)))) (Some (optstr_s (spec_extract_name_from_file c (arg 3))));
               bump extra (match impl with "n" -> "extract_none" | "P" -> "extract_panic" | _ -> "extract_some")
             | "extractp" -> let c = cfg () in
-              check ~tag:(fun () -> if impl = "P" then "extract-stray-panic" else "unclassified") "cfg" (Some (optstr_s (nc_extract_name_from_path c (arg 3)))) (Some (optstr_s (spec_extract_name_from_path c (arg 3))))
+              check "cfg" (Some (optstr_s (nc_extract_name_from_path c (arg 3)))) (Some (optstr_s (spec_extract_name_from_path c (arg 3))))
             | "conn" ->
               let m = hex (connection_name (n_of_decimal (List.nth args 0)) (n_of_decimal (List.nth args 1))) in
               check "conn" (Some m) None
@@ -205,7 +200,12 @@ let () =
                   | x :: r -> (match f c x with Panic -> "P" | Val None -> go acc r | Val (Some n) -> go (n :: acc) r) in
                 go [] files in
               (* model: extract_name_from_file over the directory content; spec (isolation): exactly the own names *)
-              check ~tag:(fun () -> if impl = "P" then "extract-stray-panic" else "isolation") "cfg" (Some (collect nc_extract_name_from_file)) (Some (List.nth args 4))
+              (* a listing that differs from the own names is the known isolation finding only when the
+                 other configuration's prefix and ours are prefixes of one another (Coq: prefix_related) *)
+              let others = unlist (List.nth args 5) in
+              let tag () = if impl <> "P" && List.exists (fun q -> q <> c.prefix && prefix_related c.prefix q) others
+                           then "isolation-prefix-of-prefix" else "unclassified" in
+              check ~tag "cfg" (Some (collect nc_extract_name_from_file)) (Some (List.nth args 4))
             | "note" -> ()
             | _ -> failwith ("unknown fun op " ^ name));
            let key = line in
